@@ -5,7 +5,7 @@ VERIF = os.path.dirname(os.path.dirname(os.path.abspath(__file__)))
 
 CLAIMED = {
  "C12": dict(tech="property-based testing (Hypothesis): generated trees vs. set-based reference implementation of the documented rule",
-             text="Generated-input search: thousands of random trees with many unattached root children (interleaved, in gaps, at the edges) are run through transform.root_attach and the parent of every node is compared with an independent set-based reference of the documented rule. Finds any deviation from the rule on trees up to 10 (quick) / 14 (thorough) tokens with high probability; never proves absence.",
+             text="Generated-input search: thousands of random trees with many unattached root children (interleaved, in gaps, at the edges) are run through transform.root_attach and the parent of every node is compared with an independent set-based reference of the documented rule. Finds any deviation from the rule on trees up to 10 (quick) / 14 (thorough) tokens with high probability; never proves absence. A quarter of the cases first apply a drawn history (root_attach itself, token insertion, token deletion) to the same tree object; the checked call is then judged against a raw snapshot taken at that moment.",
              note="Trusted: the reference in checks/C12.py, Hypothesis, the raw tree walk in vlib/model.py. Bounded to n<=14 tokens and <=5 detached nodes.",
              ref="DESIGN.md section 2, C12"),
 }
@@ -16,17 +16,17 @@ CLAIMED["C20"] = dict(
     ref="DESIGN.md section 2, C20")
 CLAIMED["C19"] = dict(
     tech="exhaustive enumeration of all tree shapes up to 5 tokens (with unary decorations and rotated child lists) + Hypothesis random trees; every node and node pair against a set-based tree model",
-    text="All series-reduced hierarchies over <=4 tokens with every unary decoration and over 5 tokens with <=1 unary node, child lists stored in rotated order, plus random trees up to 12/16 tokens: children, terminals, terminal_blocks, siblings, dominance for every node, lca for every ordered pair, pre/postorder, levels and the export numbering are compared with a model that only knows token sets and the parent relation. Exhaustive within the shape bound, sampled beyond.",
+    text="All series-reduced hierarchies over <=4 tokens with every unary decoration and over 5 tokens with <=1 unary node, child lists stored in rotated order, plus random trees up to 12/16 tokens: children, terminals, terminal_blocks, siblings, dominance for every node, lca for every ordered pair, pre/postorder, levels and the export numbering are compared with a model that only knows token sets and the parent relation. Exhaustive within the shape bound, sampled beyond. Sibling queries are made first and bottom-up on the untouched tree; random trees are verified a second time after a raw structural edit of the same object (no stale memoisation).",
     note="Trusted: set model in vlib/model.py, shape enumeration in vlib/shapes.py (counts 1,1,4,26,236 checked). Traversal sibling order is not demanded (the statement only orders ancestors and descendants).",
     ref="DESIGN.md section 2, C19")
 CLAIMED["C16"] = dict(
     tech="exhaustive shape enumeration + Hypothesis random trees/treebanks against the run-based definition; metamorphic three-way agreement (gap degree / bracket writer / context-freeness); CLI subprocess runs on files from an independent encoder",
-    text="Gap degree, blocks and tree degree are compared with maximal runs of token positions on every node of every enumerated shape (<=5 tokens) and of random trees up to 14/18 tokens; the three notions of discontinuity must agree on each tree; disco_order must be a permutation in which every node is contiguous, equal to the left-to-right flattening in mode left and the identity on continuous trees; the three analysis tasks (API and real `treetools treeanalysis` subprocess) must print totals and per-degree histograms equal to the model's.",
+    text="Gap degree, blocks and tree degree are compared with maximal runs of token positions on every node of every enumerated shape (<=5 tokens) and of random trees up to 14/18 tokens; the three notions of discontinuity must agree on each tree; disco_order must be a permutation in which every node is contiguous, equal to the left-to-right flattening in mode left and the identity on continuous trees; the three analysis tasks (API and real `treetools treeanalysis` subprocess) must print totals and per-degree histograms equal to the model's. A treebank-level unit checks the three-way agreement for one grammar extracted over many trees.",
     note="Trusted: set model, the export encoder in vlib/codecs_tree.py, regex parsing of the printed summary. Mode rightd is only constrained as far as the property states (permutation, continuity, identity on continuous trees).",
     ref="DESIGN.md section 2, C16")
 CLAIMED["C15"] = dict(
     tech="Hypothesis trees with all edge-label assignments vs. the stated NeGra heuristic; exhaustive enumeration of both head-rule tables (parent x listed category x arity x position) + Hypothesis decorated/embedded variants; invalid presets",
-    text="For the NeGra heuristic, random trees with several/one/no HD and NK edges are marked and every constituent is compared with 'leftmost HD, else rightmost NK, else leftmost'. For rule-based marking every (preset, parent category, listed category, arity 2..4, position) combination with the other children unlisted is enumerated exhaustively and must select the listed child; Hypothesis adds random case, decorated labels and embedding. In all runs: exactly one head child per constituent, all others False, root False, the ' mark exactly on heads, tree otherwise unchanged; invalid rule sources must raise ValueError.",
+    text="For the NeGra heuristic, random trees with several/one/no HD and NK edges are marked and every constituent is compared with 'leftmost HD, else rightmost NK, else leftmost'. For rule-based marking every (preset, parent category, listed category, arity 2..4, position) combination with the other children unlisted is enumerated exhaustively and must select the listed child; Hypothesis adds random case, decorated labels and embedding. In all runs: exactly one head child per constituent, all others False, root False, the ' mark exactly on heads, tree otherwise unchanged; invalid rule sources must raise ValueError. Rule-based marking is always preceded by a marking of the same tree with the other preset (no leakage between rule tables); the NeGra unit optionally applies a history of markings and token edits to the same tree first.",
     note="Trusted: rule tables read as data from transformconst; the claim checked for rules is only the stated one (a uniquely listed child is the head). Label stripping uses the reference parser of checks/C20.py.",
     ref="DESIGN.md section 2, C15")
 CLAIMED["C05"] = dict(
@@ -36,7 +36,7 @@ CLAIMED["C05"] = dict(
     ref="DESIGN.md section 2, C05")
 CLAIMED["C13"] = dict(
     tech="Hypothesis punctuation-rich trees; final-state post-conditions of the three re-attachments + frame condition on the set of nodes whose parent changed (node identity), well-formedness by raw walk",
-    text="Random trees in which ~45% of the tokens are punctuation (consecutive, punctuation-only constituents, unary nodes over punctuation, gaps) are run through punctuation_verylow, punctuation_root and punctuation_symetrify (with and without relc). The stated post-condition of each is evaluated on the final tree, the set of nodes whose parent pointer changed must contain only the permitted punctuation tokens, and the result must be the same root, well formed, with the same sentence and node set.",
+    text="Random trees in which ~45% of the tokens are punctuation (consecutive, punctuation-only constituents, unary nodes over punctuation, gaps) are run through punctuation_verylow, punctuation_root and punctuation_symetrify (with and without relc). The stated post-condition of each is evaluated on the final tree, the set of nodes whose parent pointer changed must contain only the permitted punctuation tokens, and the result must be the same root, well formed, with the same sentence and node set. A quarter of the cases apply a drawn history of other re-attachments and token edits to the same tree object first.",
     note="Trusted: inventories of punctuation copied from the documented constants and cross-checked at start-up. punctuation_symetrify is only restricted, not obliged, by the statement, so a version that moves fewer tokens is not flagged.",
     ref="DESIGN.md section 2, C13")
 CLAIMED["C14"] = dict(
@@ -66,12 +66,12 @@ CLAIMED["C08"] = dict(
     ref="DESIGN.md section 2, C08")
 CLAIMED["C10"] = dict(
     tech="Hypothesis head-marked (binary / binarized / n-ary) trees; three independent shift-reduce automata replay the emitted action strings over the sentence; reconstructed tree compared with the input (round trip); written files re-parsed; CLI subprocess",
-    text="Random head-marked trees with unary nodes at the root, in the middle and above tokens, one-token sentences, continuous (top-down, in-order) or discontinuous with nested gaps (gap) are given to transitions.topdown / inorder / gap. Hand-written automata that see only the sentence and the action strings execute the sequence; every token must be consumed, one item must remain, and it must equal the input tree in labels, dominance, unary nodes, root and head sides of binary nodes. The returned sentence, the line written by transitionoutput.plain (words or POS) and the file written by `treetools transitions` on an export file from the independent encoder are checked the same way.",
+    text="Random head-marked trees with unary nodes at the root, in the middle and above tokens, one-token sentences, continuous (top-down, in-order) or discontinuous with nested gaps (gap) are given to transitions.topdown / inorder / gap. Hand-written automata that see only the sentence and the action strings execute the sequence; every token must be consumed, one item must remain, and it must equal the input tree in labels, dominance, unary nodes, root and head sides of binary nodes. The returned sentence, the line written by transitionoutput.plain (words or POS) and the file written by `treetools transitions` on an export file from the independent encoder are checked the same way. Each extraction is repeated on the same tree (identical answer), optionally preceded by an in-order extraction before the tree is binarized, and the writer is exercised with several lines in utf-8, utf-16 and latin-1.",
     note="Trusted: the automata in checks/C10.py. Conventions pinned by the golden tests are parameters of the replayers (see ASSUMPTIONS in the evidence): a sequence is accepted if one documented reading replays it. Head flags of only children are not compared (UNARY carries no side).",
     ref="DESIGN.md section 2, C10")
 CLAIMED["C11"] = dict(
     tech="Hypothesis trees with punctuation/trace tokens at every position + generated terminal files and parameter sets vs. a list-based reference of each documented edit with pruning on the set model",
-    text="punctuation_delete, ptb_delete_traces (keep, keepall, keepcoindex, slash), insert_terminals, substitute_terminals (valid, zero, out-of-range, duplicate indices, foreign sentence ids, with/without quiet; fresh file name per case), trees.delete_terminal and filter_by_length are applied to random trees in which punctuation and traces occur first, last, as only child of unary chains and as sole content of constituents. The result must be the parentless root of a well-formed tree equal to the reference: untouched tokens keep word, POS and order, numbering 1..n, token-less constituents pruned, inserted tokens at the requested final positions under the root, out-of-range requests ignored, duplicates rejected with ValueError, deleted punctuation reported with original positions, no gap index and (unless keepcoindex) no co-index on any constituent label, kept traces swapped as documented.",
+    text="punctuation_delete, ptb_delete_traces (keep, keepall, keepcoindex, slash), insert_terminals, substitute_terminals (valid, zero, out-of-range, duplicate indices, foreign sentence ids, with/without quiet; fresh file name per case), trees.delete_terminal and filter_by_length are applied to random trees in which punctuation and traces occur first, last, as only child of unary chains and as sole content of constituents. The result must be the parentless root of a well-formed tree equal to the reference: untouched tokens keep word, POS and order, numbering 1..n, token-less constituents pruned, inserted tokens at the requested final positions under the root, out-of-range requests ignored, duplicates rejected with ValueError, deleted punctuation reported with original positions, no gap index and (unless keepcoindex) no co-index on any constituent label, kept traces swapped as documented. A second unit applies 2..5 edits one after the other to the same tree object, composing the references step by step.",
     note="Trusted: reference edits in checks/C11.py. insert_terminals inserts AT the index (pinned by the repository's test). With slash only token-level claims are checked. Labels and trace words are built from parts so expected labels are known by construction.",
     ref="DESIGN.md section 2, C11")
 CLAIMED["C02"] = dict(
@@ -81,12 +81,12 @@ CLAIMED["C02"] = dict(
     ref="DESIGN.md section 2, C02")
 CLAIMED["C01"] = dict(
     tech="Hypothesis corpora encoded by independent encoders with generated layouts and reader options, compared with model + expectation function; exhaustive enumeration of all bracket strings up to length 7/9 against a hand-written recogniser; single-edit mutations of well-formed bracket files; coverage-guided fuzzing (atheris) of the bracket reader with the recogniser as oracle inside the target",
-    text="Corpora of 1..4 (thorough 8) sentences over all tree shapes and hostile alphabets are written by independent encoders in export v3/v4 (headers, comments, secondary-edge columns, tabs or blanks, shuffled constituent lines, arbitrary numbering), brackets (arbitrary whitespace at every optional position, empty or labelled root, several sentences per line, material outside groups, empty POS), discobrackets and TIGER-XML (permuted attributes / nt / edge order, arbitrary ids, secedge noise, id styles, two encodings), plain or gzip, and read back with drawn reader options; the reader must yield exactly one well-formed tree per sentence, in order, equal to the model after an independently written expectation function of the options (gf_split, gf_separator, replace_parens, continuous, brackets_firstid, brackets_emptypos), and print nothing under quiet. Every string over {( ) blank a b} up to length 7 (thorough 9), with and without brackets_emptypos, is given to the bracket reader and to a hand-written recogniser: same trees, ValueError exactly for ill-formed input (including a group still open at end of input).",
+    text="Corpora of 1..4 (thorough 8) sentences over all tree shapes and hostile alphabets are written by independent encoders in export v3/v4 (headers, comments, secondary-edge columns, tabs or blanks, shuffled constituent lines, arbitrary numbering), brackets (arbitrary whitespace at every optional position, empty or labelled root, several sentences per line, material outside groups, empty POS), discobrackets and TIGER-XML (permuted attributes / nt / edge order, arbitrary ids, secedge noise, id styles, two encodings), plain or gzip, and read back with drawn reader options; the reader must yield exactly one well-formed tree per sentence, in order, equal to the model after an independently written expectation function of the options (gf_split, gf_separator, replace_parens, continuous, brackets_firstid, brackets_emptypos), and print nothing under quiet. Every string over {( ) blank a b} up to length 7 (thorough 9), with and without brackets_emptypos, is given to the bracket reader and to a hand-written recogniser: same trees, ValueError exactly for ill-formed input (including a group still open at end of input). Four files of 130-250 kB, random strings up to 40 pieces and an atheris campaign extend the same oracles; consecutive cases rewrite the same file name.",
     note="Trusted: encoders in vlib/codecs_tree.py, the recogniser and expectation functions in checks/C01.py. Not generated: values the formats cannot carry (see ASSUMPTIONS in the evidence). disco_reordered is only checked structurally; gf_split with a non-default separator only on labels without co-index.",
     ref="DESIGN.md section 2, C01")
 CLAIMED["C09"] = dict(
     tech="Hypothesis treebank grammars (raw and binarized in every mode) written in PMCFG/RCG/LoPar and decoded by independent decoders (round trip); differential with the repository's own RCG reader; CLI subprocess incl. grammar files as input",
-    text="Grammars and lexicons from random treebanks (counts > 1, fan-out > 1, shared linearization sequences, ambiguous / capitalised / non-ASCII words), raw or binarized left-to-right / optimal, deterministic or Markovized, are written by grammaroutput.pmcfg / rcg / lopar with and without lex_in_grammar in utf-8 and latin-1. Independent decoders must recover exactly the rules, linearizations, summed counts and word/tag counts; RCG files are additionally re-read with grammarinput.rcg; LoPar auxiliary files must list exactly the start symbols with their counts and the tag counts split by capitalisation; a non-context-free grammar must be refused without leaving files. The same through `treetools grammar` on export files, and with a written RCG grammar as the command's input.",
+    text="Grammars and lexicons from random treebanks (counts > 1, fan-out > 1, shared linearization sequences, ambiguous / capitalised / non-ASCII words), raw or binarized left-to-right / optimal, deterministic or Markovized, are written by grammaroutput.pmcfg / rcg / lopar with and without lex_in_grammar in utf-8 and latin-1. Independent decoders must recover exactly the rules, linearizations, summed counts and word/tag counts; RCG files are additionally re-read with grammarinput.rcg; LoPar auxiliary files must list exactly the start symbols with their counts and the tag counts split by capitalisation; a non-context-free grammar must be refused without leaving files. The same through `treetools grammar` on export files, and with a written RCG grammar as the command's input. Treebanks include flat constituents with 11..13 children (clauses with more than ten variables), comb-shaped trees with fan-outs >= 10 and counts with two and three digits.",
     note="Trusted: decoders in vlib/codecs_grammar.py; the in-memory grammar comes from the repository's extract/binarize (C06-C08). Fan-outs >= 10 (two-digit arity suffixes) are out of bounds.",
     ref="DESIGN.md section 2, C09")
 CLAIMED["C17"] = dict(
